@@ -1643,7 +1643,7 @@ func (e *env) execX(f []string) {
 // ---------------------------------------------------------------- mutation enumeration
 
 type mutant struct {
-	kind string // jnull | jtype | jempty | jnulllist | jremoved | ssztrunc | sszsplice | random | valid | cross
+	kind string // jnull | jtype | jempty | jnulllist | jremoved | (jnull|jnulllist|valid)pad | ssztrunc | sszsplice | random | valid | cross
 	data []byte
 }
 
@@ -2167,8 +2167,16 @@ func gen(a hx.Args, e *env, do func(string)) {
 		if x.k.duty == 0 {
 			continue
 		}
-		for _, m := range jsonMutants(x.jsn) {
+		// the JSON decoders accept white space around a document and core.unmarshal trims it before it looks for the
+		// opening brace: a framed document takes the same path as the bare one and must be handled as safely
+		pads := [][2]string{{" ", ""}, {"\n", "\n"}, {"\t\r\n ", " "}, {"", " \n"}}
+		do(fmt.Sprintf("x dec %s %d %s validpad %s", path(x.k.signed), int(x.k.duty), x.k.name, b64([]byte(" \n"+string(x.jsn)+"\n"))))
+		for i, m := range jsonMutants(x.jsn) {
 			do(fmt.Sprintf("x dec %s %d %s %s %s", path(x.k.signed), int(x.k.duty), x.k.name, m.kind, b64(m.data)))
+			if (m.kind == "jnull" || m.kind == "jnulllist") && m.data != nil {
+				pd := pads[i%len(pads)]
+				do(fmt.Sprintf("x dec %s %d %s %spad %s", path(x.k.signed), int(x.k.duty), x.k.name, m.kind, b64([]byte(pd[0]+string(m.data)+pd[1]))))
+			}
 		}
 		if x.ssz != nil {
 			for _, m := range sszMutants(rng, x.ssz, sszByType[x.k.typ], thorough) {
